@@ -47,18 +47,18 @@
 //@ fn StringDictionaryPFC::searchDistinctPrefix
 //@ fn StringDictionary::numElements tu=StringDictionary.cpp
 //@ fn StringDictionary::maxLength tu=StringDictionary.cpp
-//@ ob pfc_ctor entry=h_ctor tier=B props=C01,C03,C07,C12,C15 kind=representation defs=-DMEMALLOC=32 unwind_extra=2 timeout=900 replay=pfc grid=pfc
+//@ ob pfc_ctor entry=h_ctor tier=B props=C01,C03,C07,C12,C15 kind=representation defs=-DMEMALLOC=32 unwind_extra=2 timeout=900 replay=pfc grid=pfc gridskip=5x3b5+6x2b6+6x2b3+5x2b5
 //@ ob pfc_ctor_clamp entry=h_ctor_clamp tier=B props=C12 kind=statement defs=-DMEMALLOC=32,-DNS=3,-DML=2,-DBS=2 unwind=7 timeout=900 replay=pfc foreach=BSARG:0-1
 //@ ob pfc_grow entry=h_ctor tier=B props=C07 kind=statement defs=-DNS=2,-DML=1,-DBS=2 unwind=8 timeout=1200 mem=24 replay=pfc_grow foreach=MEMALLOC:1-3
 //@ ob pfc_grow_long entry=h_ctor tier=B props=C07 kind=statement defs=-DNS=1,-DML=6,-DBS=2,-DMEMALLOC=1 unwind=10 timeout=1200 mem=24 replay=pfc_grow
 //@ ob pfc_grow3 entry=h_ctor tier=B props=C07 kind=statement defs=-DNS=3,-DML=2,-DBS=3 unwind=34 timeout=2400 replay=pfc_grow foreach=MEMALLOC:1-4 only=thorough
-//@ ob pfc_extract entry=h_extract tier=B props=C01,C03,C02,C07,C12,C15 kind=representation unwindset=mk_dict.0:40 timeout=900 replay=pfc grid=pfc
-//@ ob pfc_locate entry=h_locate tier=B props=C01,C03,C07,C12,C14 kind=representation unwindset=mk_dict.0:40 timeout=900 replay=pfc grid=pfc
-//@ ob pfc_rank entry=h_rank tier=B props=C03,C14,C15 kind=representation unwindset=mk_dict.0:40 timeout=900 replay=pfc grid=pfc
-//@ ob pfc_absent entry=h_absent tier=B props=C02,C07,C14 kind=representation unwindset=mk_dict.0:40 timeout=900 replay=pfc grid=pfc
-//@ ob pfc_prefix entry=h_prefix tier=B props=C04,C07,C13,C14 kind=representation unwindset=mk_dict.0:40 timeout=900 ttimeout=3600 replay=pfc grid=pfc quickgrid=1x2b2+2x1b2+3x2b2+3x2b3 gridskip=5x3b5+6x2b3+6x2b6+5x2b3+5x2b2+5x2b5+6x2b2
-//@ ob pfc_extractPrefix entry=h_extractPrefix tier=B props=C04,C13,C07 kind=representation unwindset=mk_dict.0:40 timeout=900 ttimeout=3600 replay=pfc grid=pfc quickgrid=1x2b2+2x1b2+3x2b2+3x2b3 gridskip=4x3b4+5x3b5+5x2b5+6x2b6+6x2b3+6x2b2+4x3b2+5x2b2+5x2b3
-//@ ob pfc_table entry=h_table tier=B props=C13,C07 kind=representation unwindset=mk_dict.0:40 timeout=900 replay=pfc grid=pfc
+//@ ob pfc_extract entry=h_extract tier=B props=C01,C03,C02,C07,C12,C15 kind=representation unwindset=mk_dict.0:40 timeout=900 replay=pfc grid=pfc gridskip=5x3b5+6x2b6+6x2b3+5x2b5
+//@ ob pfc_locate entry=h_locate tier=B props=C01,C03,C07,C12,C14 kind=representation unwindset=mk_dict.0:40 timeout=900 replay=pfc grid=pfc gridskip=5x3b5+6x2b6+6x2b3+5x2b5
+//@ ob pfc_rank entry=h_rank tier=B props=C03,C14,C15 kind=representation unwindset=mk_dict.0:40 timeout=900 replay=pfc grid=pfc gridskip=5x3b5+6x2b6+6x2b3+5x2b5
+//@ ob pfc_absent entry=h_absent tier=B props=C02,C07,C14 kind=representation unwindset=mk_dict.0:40 timeout=900 replay=pfc grid=pfc gridskip=5x3b5+6x2b6+6x2b3+5x2b5
+//@ ob pfc_prefix entry=h_prefix tier=B props=C04,C07,C13,C14 kind=representation unwindset=mk_dict.0:40 timeout=900 replay=pfc grid=pfc quickgrid=1x2b2+2x1b2+3x2b2+3x2b3 gridonly=1x2b2+2x1b2+3x2b2+3x2b3+4x2b2+2x3b2+4x2b3 ttimeout=2400
+//@ ob pfc_extractPrefix entry=h_extractPrefix tier=B props=C04,C13,C07 kind=representation unwindset=mk_dict.0:40 timeout=900 replay=pfc grid=pfc quickgrid=1x2b2+2x1b2+3x2b2+3x2b3 gridonly=1x2b2+2x1b2+3x2b2+3x2b3+4x2b2+2x3b2+4x2b3 ttimeout=2400
+//@ ob pfc_table entry=h_table tier=B props=C13,C07 kind=representation unwindset=mk_dict.0:40 timeout=900 replay=pfc grid=pfc gridskip=5x3b5+6x2b6+6x2b3+5x2b5
 #include "vec.h"
 DEFINE_VEC(size_t, vec_size_t)
 //@ structs
